@@ -15,10 +15,13 @@ EXTENDS LangDyn, Json, IOUtils
 S == INSTANCE LangStatic
 
 Types == {"num", "str", "bool", "null", "arr"}
+\* a process_command builder as a receiver (never run: nothing is spawned)
+RecvTypes == Types \cup {"cmd"}
 Num(c) == [k |-> "num", v |-> c]
 StrL(s) == [k |-> "str", segs |-> <<[k |-> "lit", v |-> s]>>]
 Val(t) == CASE t = "num" -> Num(4) [] t = "str" -> StrL(<<115>>) [] t = "bool" -> [k |-> "bool", v |-> TRUE]
             [] t = "null" -> [k |-> "null"] [] t = "arr" -> [k |-> "arr", es |-> <<Num(4)>>]
+            [] t = "cmd" -> [k |-> "call", f |-> "command", site |-> 0, as |-> <<[k |-> "str", segs |-> <<[k |-> "lit", v |-> <<101, 99, 104, 111>>]>>]>>]
 Var(x) == [k |-> "var", n |-> x, site |-> 0]
 Bin(op, l, r) == [k |-> "bin", op |-> op, l |-> l, r |-> r]
 Un(op, e) == [k |-> "un", op |-> op, e |-> e]
@@ -52,6 +55,10 @@ Sites ==
   \cup {[key |-> <<"method-missing-arg", mm>>, n |-> 1] : mm \in StrM1 \cup {"push", "join"}}
   \cup {[key |-> <<"method-missing-arg", mm>>, n |-> 2] : mm \in StrM2}
   \cup {[key |-> <<"member", mm>>, n |-> 1] : mm \in {"len", "pop", "abs"}}
+  \* builder methods of process_command (mutating: they want an lvalue receiver)
+  \cup {[key |-> <<"builder", mm>>, n |-> 1] : mm \in {"stdin_null", "stdout_capture", "stderr_inherit"}}
+  \cup {[key |-> <<"builder", mm>>, n |-> 2] : mm \in {"arg", "cwd", "stdin_text", "timeout_ms"}}
+  \cup {[key |-> <<"builder", "env">>, n |-> 3]}
   \* index targets whose base is a call result
   \cup {[key |-> <<"temporary-target", w>>, n |-> 1] : w \in {"store", "push", "nested-store"}}
 
@@ -66,9 +73,11 @@ Use(site, d, id) ==
     [] k1 = "index" /\ k2 = "store" ->
          \* the base must be a variable: copy it first when the route delivers an element expression
          IF d[1].k = "var" THEN <<[k |-> "seti", id |-> id, n |-> d[1].n, site |-> 0, is |-> <<d[2]>>, e |-> Num(8)], Shout(id + 1, d[1])>>
-         ELSE <<[k |-> "seti", id |-> id, n |-> d[1].a.n, site |-> 0, is |-> <<d[1].i, d[2]>>, e |-> Num(8)], Shout(id + 1, d[1])>>
+         ELSE IF d[1].k = "idx" THEN <<[k |-> "seti", id |-> id, n |-> d[1].a.n, site |-> 0, is |-> <<d[1].i, d[2]>>, e |-> Num(8)], Shout(id + 1, d[1])>>
+         ELSE <<[k |-> "setx", id |-> id, t |-> Idx(d[1], d[2]), e |-> Num(8)], Shout(id + 1, Num(4))>>
     [] k1 = "method" -> <<Shout(id, M(d[1], k2, SubSeq(d, 2, Len(d))))>>
     [] k1 = "global" -> <<Shout(id, G(k2, <<d[1]>>))>>
+    [] k1 = "builder" -> <<Shout(id, M(d[1], k2, SubSeq(d, 2, Len(d))))>>
     [] k1 = "method-missing-arg" -> <<Shout(id, M(d[1], k2, SubSeq(d, 2, Len(d))))>>
     [] k1 = "member" -> <<Shout(id, [k |-> "member", o |-> d[1], m |-> k2])>>
     [] k1 = "temporary-target" ->
@@ -83,7 +92,7 @@ Use(site, d, id) ==
          IF d[1].k = "var" THEN <<Shout(id, [k |-> "str", segs |-> <<[k |-> "lit", v |-> <<60>>], [k |-> "var", n |-> d[1].n, site |-> 0]>>])>>
          ELSE <<Make(id, "w", d[1]), Shout(id + 1, [k |-> "str", segs |-> <<[k |-> "lit", v |-> <<60>>], [k |-> "var", n |-> "w", site |-> 0]>>])>>
 
-Routes == {"param", "element", "pop", "mixedreturn", "reassign"}
+Routes == {"param", "element", "pop", "mixedreturn", "reassign", "callresult", "popdirect"}
 PNames == <<"p", "q", "r">>
 \* program for site s, operand types ts (a sequence), route rt
 Prog(s, ts, rt) ==
@@ -102,13 +111,21 @@ Prog(s, ts, rt) ==
             <<[k |-> "def", id |-> 1, d |-> 10, n |-> "g", site |-> 0, ps |-> <<"k">>, pd |-> <<11>>, psites |-> <<0>>,
                b |-> [j \in 1..n |-> If(20 + 2 * j, Bin("na", Var("k"), Num(4 * j)), <<Ret(21 + 2 * j, Val(ts[j]))>>)] \o <<Ret(30, Num(0))>>]>>
             \o [j \in 1..n |-> Make(1 + j, PNames[j], G("g", <<Num(4 * j)>>))] \o Use(s, vars, 40)
+       [] rt = "callresult" ->      \* the operand is the result of a call: a temporary
+            <<[k |-> "def", id |-> 1, d |-> 10, n |-> "id", site |-> 0, ps |-> <<"v">>, pd |-> <<11>>, psites |-> <<0>>, b |-> <<Ret(2, Var("v"))>>]>>
+            \o Use(s, [j \in 1..n |-> G("id", <<Val(ts[j])>>)], 10)
+       [] rt = "popdirect" ->       \* the operand is `a.pop()` itself
+            <<Make(1, "a", [k |-> "arr", es |-> [j \in 1..n |-> Val(ts[n - j + 1])]])>> \o Use(s, [j \in 1..n |-> M(Var("a"), "pop", <<>>)], 10)
        [] rt = "reassign" ->
             [j \in 1..(2 * n) |-> IF j % 2 = 1 THEN Make(j, PNames[(j + 1) \div 2], Num(12)) ELSE Set(j, PNames[j \div 2], Val(ts[j \div 2]))]
             \o Use(s, vars, 40)
 
 TypeSeqs(n) == CASE n = 1 -> {<<a>> : a \in Types} [] n = 2 -> {<<a, b>> : a \in Types, b \in Types}
                  [] n = 3 -> {<<a, b, c>> : a \in Types, b \in {"num", "str", "null"}, c \in {"num", "str", "arr"}}
-Cases == UNION {{[s |-> s, ts |-> ts, rt |-> rt] : ts \in TypeSeqs(s.n), rt \in Routes} : s \in Sites}
+\* method-like sites also get a process_command receiver
+RecvSeqs(s) == IF s.key[1] \in {"method", "builder", "member", "method-missing-arg"}
+               THEN {[ts EXCEPT ![1] = "cmd"] : ts \in TypeSeqs(s.n)} ELSE {}
+Cases == UNION {{[s |-> s, ts |-> ts, rt |-> rt] : ts \in TypeSeqs(s.n) \cup RecvSeqs(s), rt \in Routes} : s \in Sites}
 
 VARIABLES c, prog, m, fuel
 vars == <<c, prog, m, fuel>>
